@@ -5,6 +5,7 @@
   reference accepts, with the same values, or an input whose constraints do not hold (`ConstraintValue`).
 -/
 import Pdlv.Lemmas.CxxView
+import Pdlv.Thm.C01
 
 namespace Pdlv
 namespace Cxx
@@ -294,6 +295,116 @@ theorem chain_ok (c : Cfg) : ∀ (b : Body), vwfChain b = true → ∀ (bs : Byt
             · simp [DState.empty] at h0
             · omega
         · cases hd4
+
+/-- the payload of a valid view's value is cut from the input as well (through the reference's state, which a valid view
+    shares) -/
+theorem view_payload_le (c : Cfg) : ∀ (b : Body), vwfChain b = true → ∀ (bs : Bytes), bs.length < usizeMax →
+    ∀ v hz, viewBody c b bs = .ok (v, hz) → (pbytesOf v).length ≤ bs.length
+  | .root nm items, hw, bs, hb, v, hz, hp => by
+    simp only [vwfChain, Bool.and_eq_true, Bool.not_eq_true'] at hw
+    have hok := chain_root c nm items hw.1 hw.2 bs hb
+    obtain ⟨_, href⟩ := hok.2.1 v hz hp
+    rcases href with ⟨r, _, hd⟩ | hcv
+    · exact hok.2.2 v r hd
+    · simp only [Pdlv.decBody] at hcv
+      -- a root has no constraint to violate
+      cases hdi : Pdlv.decItems (ideal c) items bs DState.empty with
+      | ok a => simp [hdi, Outcome.bind] at hcv
+      | panic q => simp [hdi, Outcome.bind] at hcv
+      | err e =>
+        -- the view is valid, so the reference's parser of the own fields accepted
+        exfalso
+        have h := items_refv c items (sizeField_vwf items · items hw.1) items hw.1 false bs DState.empty hb
+        simp only [viewBody] at hp
+        obtain ⟨⟨⟨s1, z1⟩, r1⟩, ha, _⟩ := bind_ok _ _ _ hp
+        cases z1 with
+        | some z => exact absurd ha (h.2.1 s1 z r1)
+        | none =>
+          have hq := (h.1 s1 r1).mp ha
+          rw [hdi] at hq
+          cases hq
+  | .derived nm parent cs allCs items, hw, bs, hb, v, hz, hp => by
+    have hw0 := hw
+    simp only [vwfChain, Bool.and_eq_true, Bool.not_eq_true'] at hw
+    obtain ⟨⟨⟨hwi, hid⟩, hpp⟩, hwp⟩ := hw
+    have hp0 := hp
+    simp only [viewBody] at hp0
+    obtain ⟨⟨pv, phz⟩, hpv, _⟩ := bind_ok _ _ _ hp0
+    have ihb := view_payload_le c parent hwp bs hb pv phz hpv
+    obtain ⟨rfl, _⟩ := (chain_ok c parent hwp bs hb).2.1 pv phz hpv
+    rw [viewBody_step c nm parent cs allCs items bs pv none hpv hpp] at hp
+    split at hp
+    · cases hp
+    · obtain ⟨⟨⟨s1, z1⟩, r1⟩, ha, hbb⟩ := bind_ok _ _ _ hp
+      have hr := items_refv c items (sizeField_vwf items · items hwi) items hwi false (pbytesOf pv) DState.empty (by omega)
+      cases z1 with
+      | some z => exact absurd ha (hr.2.1 s1 z r1)
+      | none =>
+        have hc := (hr.1 s1 r1).mp ha
+        simp only at hbb
+        split at hbb
+        · cases hbb
+        · simp only [Outcome.ok.injEq, Prod.mk.injEq] at hbb
+          obtain ⟨hkeys, _⟩ := decItems_ids (ideal c) items (pbytesOf pv) r1 DState.empty s1 hc
+          simp only [DState.empty, List.map_nil, List.nil_append] at hkeys
+          have hF : s1.fields.lookup "payload" = none :=
+            lookup_none_of_not_mem _ _ (by rw [hkeys]; simpa using hid)
+          rw [← hbb.1]
+          cases hpl : s1.payload with
+          | none =>
+            simp only [pbytesOf_none s1.fields _ hF (filter_lookup_payload pv.fields cs), List.length_nil, Nat.zero_le]
+          | some p =>
+            simp only [pbytesOf_some s1.fields _ hF (filter_lookup_payload pv.fields cs) p]
+            rcases decItems_payload_le (ideal c) items (pbytesOf pv) r1 DState.empty s1 hc p hpl with h0 | h0
+            · simp [DState.empty] at h0
+            · omega
+
+/-- no slice accessor is called beyond its slice anywhere along the chain: a hazard of the view parser of a level is a
+    hazard of the reference's parser of that level's own fields on the same octets, which C01 excludes -/
+theorem chain_no_panic (c : Cfg) : ∀ (b : Body), vwfChain b = true → decWfBody b = true → ∀ (bs : Bytes), bs.length < usizeMax →
+    ∀ h, viewBody c b bs ≠ .panic h
+  | .root nm items, hw, hd, bs, hb, h, hp => by
+    simp only [vwfChain, Bool.and_eq_true, Bool.not_eq_true'] at hw
+    have hr := items_refv c items (sizeField_vwf items · items hw.1) items hw.1 false bs DState.empty hb
+    simp only [viewBody] at hp
+    cases hv : viewItems c items items false bs (DState.empty, none) with
+    | panic h0 =>
+      obtain ⟨h', hq⟩ := hr.2.2 h0 hv
+      have := decode_full_no_panic_ideal c.e (.root nm items) hd bs
+      have e : ideal c = { e := c.e, mode := .ideal } := rfl
+      rw [e] at hq
+      simp [Pdlv.decodeFull, Pdlv.decBody, hq, Outcome.bind, Outcome.isPanic] at this
+    | err e => simp [hv, Outcome.bind] at hp
+    | ok a =>
+      obtain ⟨⟨s1, z1⟩, r1⟩ := a
+      simp only [hv, Outcome.bind] at hp
+      split at hp <;> cases hp
+  | .derived nm parent cs allCs items, hw, hd, bs, hb, h, hp => by
+    have hw0 := hw
+    simp only [vwfChain, Bool.and_eq_true, Bool.not_eq_true'] at hw
+    obtain ⟨⟨⟨hwi, hid⟩, hpp⟩, hwp⟩ := hw
+    simp only [decWfBody, Bool.and_eq_true] at hd
+    cases hpv : viewBody c parent bs with
+    | panic h0 => exact chain_no_panic c parent hwp hd.1 bs hb h0 hpv
+    | err e => simp [viewBody, hpv, Outcome.bind] at hp
+    | ok a =>
+      obtain ⟨pv, phz⟩ := a
+      obtain ⟨rfl, _⟩ := (chain_ok c parent hwp bs hb).2.1 pv phz hpv
+      have hbound := view_payload_le c parent hwp bs hb pv none hpv
+      rw [viewBody_step c nm parent cs allCs items bs pv none hpv hpp, if_neg (by omega)] at hp
+      have hr := items_refv c items (sizeField_vwf items · items hwi) items hwi false (pbytesOf pv) DState.empty (by omega)
+      cases hv : viewItems c items items false (pbytesOf pv) (DState.empty, none) with
+      | panic h0 =>
+        obtain ⟨h', hq⟩ := hr.2.2 h0 hv
+        have := decode_full_no_panic_ideal c.e (.root nm items) hd.2 (pbytesOf pv)
+        have e : ideal c = { e := c.e, mode := .ideal } := rfl
+        rw [e] at hq
+        simp [Pdlv.decodeFull, Pdlv.decBody, hq, Outcome.bind, Outcome.isPanic] at this
+      | err e => simp [hv, Outcome.bind] at hp
+      | ok a =>
+        obtain ⟨⟨s1, z1⟩, r1⟩ := a
+        simp only [hv, Outcome.bind] at hp
+        split at hp <;> cases hp
 
 end Cxx
 end Pdlv
